@@ -205,7 +205,14 @@ func VH_C08_crash(rt int) {
 			}
 		}
 	}
-	cfs := &vhCrashFS{FS: mem, k: verif.Concretize(verif.Int(), 0, 40)}
+	// the crash point: none, or the occ-th (1..3) file-system operation of a kind
+	// on a class of path (addressing that does not depend on how many files a
+	// database directory holds: natively a checkpoint has several, the model one)
+	cfs := &vhCrashFS{FS: mem}
+	if verif.Bool() {
+		cfs.sel = vhCrashOps[verif.Choice(len(vhCrashOps))] + ":" + vhCrashClasses[verif.Choice(len(vhCrashClasses))]
+		cfs.occ = 1 + verif.Choice(3)
+	}
 	installed := false
 	crashed := vhUntilCrash(func() {
 		f := vhSnapFSM(cfs, vhNodeDir, rt)
